@@ -18,6 +18,7 @@ import tempfile
 import time
 import hashlib
 from concurrent.futures import ThreadPoolExecutor
+from rsrc import find_item
 
 HERE = os.path.dirname(os.path.abspath(__file__))
 sys.path.insert(0, HERE)
@@ -161,8 +162,8 @@ def classify(group, res):
     return fails, tool
 
 
-def assemble(gname, scratch, disabled_hints=None):
-    g = Group(gname, disabled_hints=disabled_hints)
+def assemble(gname, scratch, disabled_hints=None, extra_items=None):
+    g = Group(gname, disabled_hints=disabled_hints, extra_items=extra_items)
     g.process()
     text = g.finish()
     g.gen_path = os.path.join(scratch, gname + ".rs")
@@ -203,9 +204,10 @@ def verify_group(gname, scratch, rlimit=30):
     """Assemble and verify one group. Returns dict."""
     t0 = time.time()
     disabled = set()
-    for _round in range(6):
+    extra_items = []
+    for _round in range(8):
         try:
-            g = assemble(gname, scratch, disabled)
+            g = assemble(gname, scratch, disabled, extra_items)
         except Undecided as e:
             return {"group": gname, "status": "undecided", "reason": str(e), "wall": time.time() - t0}
         res = run_verus(g.gen_path, rlimit=rlimit)
@@ -250,6 +252,24 @@ def verify_group(gname, scratch, rlimit=30):
                 fh.write(g.gen_text)
             res = run_verus(g.gen_path, rlimit=rlimit)
             fails, tool = classify(g, res)
+        # a constant of the repo that (changed) code refers to but no contract names is pulled in from the files this
+        # group extracts from, and the run repeated
+        added = False
+        for t in tool:
+            mm = re.search(r"cannot find value `(\w+)` in this scope", t["msg"])
+            if mm and t.get("in_src"):
+                nm = mm.group(1)
+                for relf, src in list(g.srcs.items()):
+                    try:
+                        it = find_item(src, "const " + nm)
+                    except LookupError:
+                        continue
+                    if (relf, "const " + nm) not in extra_items:
+                        extra_items.append((relf, "const " + nm))
+                        added = True
+                    break
+        if added:
+            continue
         # proof hints that no longer type-check on this tree are dropped and the rest is verified without them
         bad = set(h for t in tool for h in t.get("hints", []))
         if tool and bad and not bad <= disabled:
